@@ -64,5 +64,9 @@ class SRCapabilities(TLV):
                     data = struct.unpack('!I', value[7:7 + length])[0]
                     value = value[7 + length:]
                     tmp['sid'] = data
+                else:
+                    # SID/Label sub-TLV of a length that is neither a label nor
+                    # an index: skip it, or this loop never ends
+                    value = value[7 + length:]
                 results.append(tmp)
         return cls(value={"flag": {"I": I, "V": V}, "value": results})
